@@ -29,6 +29,9 @@ type recFs struct {
 	// gate, when set, is called at the entry of every Write on a file, before the call is recorded and carried out: a
 	// caller-supplied filesystem may take its time (C11: it parks the Write until the other writers have reached theirs)
 	gate func(path string)
+	// chunk > 0: a Read on a file delivers at most that many bytes per call (a filesystem is free to: pipes, FUSE,
+	// network filesystems), without an error
+	chunk int
 }
 
 var errInjected = errors.New("injected fault")
@@ -217,6 +220,9 @@ func (f *recFile) Read(p []byte) (int, error) {
 			return 0, nil
 		}
 		return 0, f.r.err()
+	}
+	if f.r.chunk > 0 && len(p) > f.r.chunk {
+		p = p[:f.r.chunk]
 	}
 	return f.File.Read(p)
 }
